@@ -68,6 +68,16 @@ def cases(rng, tier):
                 c[c["axis"]] = [str(off + Fraction(v)) for v in c[c["axis"]]]
             elif r < 0.3:
                 c[c["axis"]] = [str(Fraction(v) / 2 ** 40) for v in c[c["axis"]]]
+            elif r < 0.38 and kind == "normalize":
+                # integer readings beyond 2**53 (nanosecond time stamps, large counters): exact as int64, not representable
+                # as floats - the affine map must be taken on the integers
+                v0, vs = 2 ** 60 + rng.randint(0, 10 ** 6), []
+                for _ in range(n):
+                    vs.append(v0)
+                    v0 += rng.randint(1, 900)
+                if c["axis"] == "y":
+                    rng.shuffle(vs)
+                c[c["axis"]], c["bigint"] = [str(v) for v in vs], True
         yield c
 
 
@@ -204,6 +214,8 @@ def run_impl(c):
         with warnings.catch_warnings():
             warnings.simplefilter("ignore")
             if k == "normalize":
+                if c.get("bigint"):
+                    arr = S.arr([int(Fraction(v)) for v in c[c["axis"]]], dtype=np.int64)
                 return {"ok": [float(v) for v in normalize(arr, lo, hi)]}
             w = Weaver(xa, ya)
             getattr(w, "normalize_" + c["axis"])(lo, hi)
@@ -298,6 +310,8 @@ def oracle(c, io):
     if k == "shiftscale":
         return None   # exact pointwise maps are checked in compare against exact arithmetic
     arr = xf if c["axis"] == "x" else yf
+    if c.get("bigint"):
+        arr = list(x if c["axis"] == "x" else y)       # exact: floats would merge neighbouring readings
     if len(set(arr)) < 2:
         return None
     lo, hi = float(Fraction(c["lo"])), float(Fraction(c["hi"]))
